@@ -44,12 +44,12 @@ ASSUMPTIONS = [
 MIN_EVENTS = {
     'quick': {'oracle_evals': 400000, 'instances': 70000, 'layout_checks': 70000, 'from_bytes_checks': 70000,
               'rebuild_checks': 55000, 'pollution_steps': 3000, 'ertm_fields': 5000, 'rfcomm_frames': 2000,
-              'sdp_elements': 3000, 'sdp_wide_elements': 400, 'sdp_size_boundaries': 16, 'uuid_ops': 1000, 'inst_l2cap-sig': 3000, 'inst_att': 5000,
+              'sdp_elements': 3000, 'sdp_wide_elements': 400, 'avdtp_generic_messages': 1000, 'sdp_size_boundaries': 16, 'uuid_ops': 1000, 'inst_l2cap-sig': 3000, 'inst_att': 5000,
               'inst_smp': 2000, 'inst_sdp-pdu': 1000, 'inst_avdtp': 6000, 'inst_avrcp-cmd': 3000, 'inst_avrcp-rsp': 3000,
               'inst_avrcp-evt': 1000, 'inst_avrcp-item': 500},
     'thorough': {'oracle_evals': 3000000, 'instances': 500000, 'layout_checks': 500000, 'from_bytes_checks': 400000,
                  'rebuild_checks': 300000, 'pollution_steps': 50000, 'ertm_fields': 33000, 'rfcomm_frames': 30000,
-                 'sdp_elements': 50000, 'sdp_wide_elements': 6000, 'sdp_size_boundaries': 100, 'uuid_ops': 15000, 'inst_l2cap-sig': 60000, 'inst_att': 100000,
+                 'sdp_elements': 50000, 'sdp_wide_elements': 6000, 'avdtp_generic_messages': 8000, 'sdp_size_boundaries': 100, 'uuid_ops': 15000, 'inst_l2cap-sig': 60000, 'inst_att': 100000,
                  'inst_smp': 40000, 'inst_sdp-pdu': 20000, 'inst_avdtp': 120000, 'inst_avrcp-cmd': 60000, 'inst_avrcp-rsp': 60000,
                  'inst_avrcp-evt': 20000, 'inst_avrcp-item': 10000},
 }
@@ -63,6 +63,8 @@ def plan(tier, seed):
     cases = [{'kind': 'mix', 'seed': seed * 100003 + i, 'per_unit': per} for i in range(n)]
     cases.append({'kind': 'ertm-all', 'seed': seed})
     cases.append({'kind': 'rfcomm-grid', 'seed': seed})
+    for i in range(2 if tier == 'quick' else 16):
+        cases.append({'kind': 'avdtp-generic', 'seed': seed * 100003 + i})
     for i in range(4 if tier == 'quick' else 16):
         cases.append({'kind': 'sdp-bounds', 'seed': seed * 100003 + i})
     return cases
@@ -2215,8 +2217,51 @@ EXHAUSTIVE_NOTE = ('ERTM enhanced control fields: all 32768 I-frame and 768 vali
                    'SABM/UA/DM/DISC address/PF combination')
 
 
+def case_avdtp_generic(case, r: R):
+    """AVDTP single packets for which bumble has NO dedicated class (signal identifier x message type not in the
+    registry: e.g. the rejects of DISCOVER and ABORT, reserved signals, general reject): they are carried by a generic
+    class and must re-serialise to the bytes they were parsed from."""
+    from bumble import avdtp
+    rng = random.Random(f'avdtp-generic/{case["seed"]}')
+    registered = {(int(sig), int(mt)) for sig, by_type in avdtp.Message.subclasses.items() for mt in by_type}
+    codes = [int(c) for c in avdtp.ErrorCode]
+    fam = Avdtp()
+    n = 0
+    for sig in range(64):
+        for mt in range(4):
+            if (sig, mt) in registered:
+                continue
+            for rep in range(3):
+                if mt == 3:
+                    payload = bytes([rng.choice(codes)])          # a reject carries its error code
+                elif mt == 1:
+                    payload = b''                                 # general reject: no parameters
+                else:
+                    payload = RU.rnd_bytes(rng, rng.choice([0, 1, 2, 7, 40]))
+                label = rng.randrange(16)
+                data = RU.avdtp_single(label, mt, sig, payload)
+                r.ev('avdtp_generic_messages')
+                r.ev('oracle_evals')
+                n += 1
+                key = f'roundtrip/avdtp-generic/{"reject" if mt == 3 else "general-reject" if mt == 1 else "command" if mt == 0 else "accept"}'
+                try:
+                    msg = fam.parse(None, {'label': label}, data)
+                    out = fam.serialise(msg, {'label': label})
+                except Exception as e:
+                    r.bad(key + f'/raises/{type(e).__name__}', f'signal {sig:#x} type {mt} payload {payload.hex()}: {e}')
+                    continue
+                if (int(msg.signal_identifier), int(msg.message_type)) != (sig, mt):
+                    r.bad(key + '/signal-or-type', f'{data.hex()} parsed as signal={msg.signal_identifier!r} type={msg.message_type!r}')
+                elif bytes(out) != data:
+                    r.bad(key + '/reserialise', f'signal {sig:#x} type {mt}: parsed from {data.hex()}, re-serialised as {bytes(out).hex()}')
+    r.evals(n)
+    r.sample = {'kind': 'avdtp-generic', 'unregistered_signal_type_pairs': 256 - len(registered), 'messages': n}
+
+
 def run_case(case, r: R):
     kind = case['kind']
+    if kind == 'avdtp-generic':
+        return case_avdtp_generic(case, r)
     if kind == 'mix':
         case_mix(case, r)
     elif kind == 'ertm-all':
